@@ -13,7 +13,7 @@ Record span := { sp_start : N; sp_end : N }.
 Record sstr := { ss_text : str; ss_span : span }.          (* xmlparser::StrSpan: the text and where it is *)
 
 Inductive ptoken :=
-| TkDecl (version : sstr)
+| TkDecl (version : sstr) (encoding : option sstr)
 | TkPI (target : sstr) (content : option sstr)
 | TkComment (text : sstr)
 | TkDtd (sp : span)                                   (* DtdStart / DtdEnd / EmptyDtd / EntityDeclaration *)
@@ -509,8 +509,13 @@ Section WithBuiltins.
         do (st1, n) <- add_node (with_tabs st t1) (VPI tid (match content with Some c => Some (normalize_line_ends (ss_text c)) | None => None end));
         let m1 := span_add (b_spans st1) (KPiTarget n) (ss_span target) in
         BOk (with_spans st1 (match content with Some c => span_add m1 (KPiContent n) (ss_span c) | None => m1 end))
-    | TkDecl version =>
-        if str_eqb (ss_text version) s_version_10 then BOk st
+    | TkDecl version encoding =>
+        if str_eqb (ss_text version) s_version_10 then
+          (* EncName ::= [A-Za-z] ([A-Za-z0-9._] | '-')*: the tokenizer takes any quoted value *)
+          match encoding with
+          | Some e => if valid_encname (ss_text e) then BOk st else BErr (PEXmlParser (sp_start (ss_span e)))
+          | None => BOk st
+          end
         else BErr (PEUnsupportedVersion (ss_text version) (ss_span version))
     | TkDtd sp => BErr (PEDtdUnsupported sp)
     | TkError pos => BErr (PEXmlParser pos)
